@@ -1,0 +1,13 @@
+//go:build !verif
+
+package storage
+
+// Verification hooks are compiled out unless the `verif` build tag is set.
+
+func verifPoint(string, uint64) {}
+
+func verifAutoFlush(autoFlushCache bool) bool { return autoFlushCache }
+
+func verifOpened(*fileStore, bool) {}
+
+func verifClosed(*fileStore) {}
